@@ -83,6 +83,17 @@ def gen(ctx, size, long_msgs=False):
         ctx.add('sig.spki_der', spki.hex(), expect=['ok', Ab.hex()], cls='keypair:pkcs8')
         v2 = bytes.fromhex('3051020101300506032b657004220420') + seed + bytes.fromhex('812100') + Ab
         ctx.add('sig.pkcs8_encode', seed.hex(), expect=[v2.hex(), spki.hex(), seed.hex(), Ab.hex()], cls='keypair:pkcs8')
+        import base64
+
+        def pem(label, der):
+            b64 = base64.b64encode(der).decode()
+            body = '\n'.join(b64[i:i + 64] for i in range(0, len(b64), 64))
+            return ('-----BEGIN %s-----\n%s\n-----END %s-----\n' % (label, body, label)).encode()
+        ctx.add('sig.pkcs8_pem', pem('PRIVATE KEY', v1).hex(), expect=[Ab.hex(), 'err'], cls='keypair:pkcs8')
+        ctx.add('sig.pkcs8_pem', pem('PRIVATE KEY', v2).hex(), expect=[Ab.hex(), 'err'], cls='keypair:pkcs8')
+        ctx.add('sig.pkcs8_pem', pem('PUBLIC KEY', spki).hex(), expect=['err', Ab.hex()], cls='keypair:pkcs8')
+        bad = bytes.fromhex('3051020101300506032b657004220420') + seed + bytes.fromhex('812100') + ref.ed_public(vals.rb(rng, 32))
+        ctx.add('sig.pkcs8_pem', pem('PRIVATE KEY', bad).hex(), expect=['err', 'err'], cls='keypair:pkcs8')
         other = ref.ed_public(vals.rb(rng, 32)) if rng.random() < 0.5 else flip(Ab, rng)
         if other != Ab:
             keypair_import(ctx, seed, other, Ab, False, 'keypair:mismatch')
